@@ -705,6 +705,44 @@ variant("continuation-loop-range",
 			c.text.PrintfLine("%d-%v.%v.%v %v", code, enhCode[0], enhCode[1], enhCode[2], line)
 		}
 	}"""))
+variant("tosmtperr-cut",
+  ("client.go", """	parts := strings.SplitN(protoErr.Msg, " ", 2)
+	if len(parts) != 2 {
+		return smtpErr
+	}
+
+	enchCode, err := parseEnhancedCode(parts[0])
+	if err != nil {
+		return smtpErr
+	}
+
+	msg := parts[1]
+
+	// Per RFC 2034, enhanced code should be prepended to each line.
+	msg = strings.ReplaceAll(msg, "\\n"+parts[0]+" ", "\\n")
+""", """	first, rest, found := strings.Cut(protoErr.Msg, " ")
+	if !found {
+		return smtpErr
+	}
+
+	enchCode, err := parseEnhancedCode(first)
+	if err != nil {
+		return smtpErr
+	}
+
+	// Per RFC 2034, enhanced code should be prepended to each line.
+	msg := strings.ReplaceAll(rest, "\\n"+first+" ", "\\n")
+"""))
+variant("rcpt-fprintf",
+  ("client.go", """		sb.WriteString(fmt.Sprintf(" RRVS=%s", opts.RequireRecipientValidSince.Format(time.RFC3339)))""", """		fmt.Fprintf(&sb, " RRVS=%s", opts.RequireRecipientValidSince.Format(time.RFC3339))"""))
+variant("xtext-hex-helper",
+  ("conn.go", """			// hexchar is "+" followed by exactly two hex digits
+			out.WriteRune('+')
+			if ch < 0x10 {
+				out.WriteRune('0')
+			}
+			out.WriteString(strings.ToUpper(strconv.FormatInt(int64(ch), 16)))""", """			// hexchar is "+" followed by exactly two hex digits
+			fmt.Fprintf(&out, "+%02X", ch)"""))
 if sys.argv[1:] == ['--export']:
     out = [{"id": "benign-" + n, "edits": [{"file": f, "old": o, "new": w} for f, o, w in V[n]]} for n in V]
     json.dump(out, open('/verif/liveness/benign.json', 'w'), indent=1)
